@@ -9,12 +9,21 @@ sys.path.insert(0, os.path.dirname(os.path.abspath(__file__)))
 import common as C
 
 
+def _safe(fn, default, *args):
+    """Hooks of a property module are written for well-formed observations; on an unexpected one (a harness-error
+    marker, an exception code) they must not take the check down."""
+    try:
+        return fn(*args)
+    except Exception:
+        return default
+
+
 def finding_matches(findings, prop_id, mod, case, obs, model):
     """A mismatch is a known finding only if the property module's predicate for a *listed* finding holds."""
     fn = getattr(mod, "known_finding", None)
     if fn is None:
         return None
-    fid = fn(case, obs, model)
+    fid = _safe(fn, None, case, obs, model)
     if fid is None:
         return None
     for f in findings:
@@ -55,7 +64,19 @@ def main():
         sys.exit(replay(mod, args.replay))
     if hasattr(mod, "main"):
         sys.exit(mod.main(args.tier, seed))
-    sys.exit(run_check(mod, args.tier, seed, skip_proofs=args.no_proofs))
+    try:
+        rc = run_check(mod, args.tier, seed, skip_proofs=args.no_proofs)
+    except Exception as e:
+        # last safety net: a check never dies with a traceback only — the property is then not shown to hold
+        import traceback
+        tb = traceback.format_exc()
+        print(tb[-3000:], file=sys.stderr)
+        path = C.write_replay(mod.ID, {"property": mod.ID, "kind": "harness_exception",
+                                       "what": f"the check could not be completed: {type(e).__name__}: {e}",
+                                       "traceback": tb[-6000:]})
+        print(f"VIOLATION property={mod.ID} replay={path} no-failing-input-found")
+        rc = 1
+    sys.exit(rc)
 
 
 def run_check(mod, tier, seed, skip_proofs=False):
@@ -121,13 +142,40 @@ def run_check(mod, tier, seed, skip_proofs=False):
                 observed[i] = [-999999]
         mism, errors = ({}, [])
         if ok_run:
-            terms = [mod.coq_term(c) for c in cases]
+            terms = []
+            for i, c in enumerate(cases):
+                try:
+                    terms.append(mod.coq_term(c))
+                except Exception as e:      # the term builder may use the implementation (serialised fragments):
+                    # an exception there is reported as a disagreement on that case, never as a crash of the check
+                    print(f"HARNESS ERROR building the model term of case {json.dumps(c)[:400]}: "
+                          f"{type(e).__name__}: {e}", file=sys.stderr)
+                    terms.append("[-999998]")
             mism, errors = C.run_model(pid, mod.RUN_MODULE, terms, observed,
                                        shard_size=getattr(mod, "SHARD", 300))
         return cases, observed, herr, mism, errors
 
     search_tier = tier
-    cases, observed, herr, mism, errors = correspond(tier)
+    try:
+        cases, observed, herr, mism, errors = correspond(tier)
+    except Exception as e:
+        # the generator / builders use the implementation (reachable-state exploration, design validation, ...): when it
+        # stops behaving as the harness expects, the property is no longer shown to hold — report, never crash
+        import traceback
+        tb = traceback.format_exc()
+        print(tb[-3000:], file=sys.stderr)
+        path = C.write_replay(pid, {"property": pid, "kind": "harness_exception",
+                                    "what": f"the correspondence run could not be carried out: {type(e).__name__}: {e}",
+                                    "traceback": tb[-6000:]})
+        print(f"VIOLATION property={pid} replay={path} no-failing-input-found")
+        C.write_evidence(pid, tier, seed, mod.LEVEL,
+                         {"obligations": len(obligations) + len(tstat), "discharged": 0, "evaluations": 0,
+                          "distinct_nontrivial": 0, "rule": mod.RULE, "samples": [f"{type(e).__name__}: {e}"],
+                          "checker_cmd": "n/a (correspondence run failed)", "trusted_base": C.TRUSTED_BASE,
+                          "broken_obligations": broken + [f"correspondence run raised {type(e).__name__}: {e}"]},
+                         time.time() - t0, 1,
+                         getattr(mod, "ASSUMPTIONS", []))
+        return 1
     if broken and not mism and tier == "quick" and not herr:
         search_tier = "thorough"
         cases, observed, herr, mism, errors = correspond("thorough")
@@ -142,8 +190,8 @@ def run_check(mod, tier, seed, skip_proofs=False):
     hist = collections.Counter()
     distinct = set()
     for c, o in zip(cases, observed):
-        hist[mod.classify(c)] += 1
-        if mod.nontrivial(c, o):
+        hist[_safe(mod.classify, "?", c)] += 1
+        if _safe(mod.nontrivial, False, c, o):
             distinct.add(C.case_hash(c))
     seen_findings = collections.OrderedDict()
     reported = set()
@@ -153,7 +201,7 @@ def run_check(mod, tier, seed, skip_proofs=False):
         if f is not None:
             seen_findings.setdefault(f["id"], (f, case))
             continue
-        key = mod.classify(case)
+        key = _safe(mod.classify, "?", case)
         if key in reported and len(violations) >= 5:
             continue
         reported.add(key)
